@@ -52,6 +52,13 @@ func genCase(bias string) func(t *rapid.T) Case {
 			return op
 		})
 		c.Ops = rapid.SliceOfN(genOp, 2, maxOps).Draw(t, "ops")
+		if bias == "C02" && rapid.IntRange(0, 2).Draw(t, "barging") == 0 {
+			// construction instead of rejection: a waiter is woken by a release while a
+			// newcomer takes the lock and gives it back (the schedule decides whether the
+			// woken waiter looks before, between or after the newcomer's two sections)
+			w := rapid.Bool().Draw(t, "bargew")
+			c.Ops = append([]Op{{K: "lock", W: true}, {K: "lock", W: w || !c.RW}, {K: "rel"}, {K: "try", W: true}, {K: "rel"}}, c.Ops...)
+		}
 		c.Sched = sched.GenSchedule(t, ev.Pick(120, 400))
 		return c
 	}
@@ -103,6 +110,12 @@ func run(t *testing.T, cs Case) *ev.Verdict {
 	v.Canon = string(canon)
 	c, berr := sched.Run(t, parkPoints, cs.Sched, func(c *sched.Ctl) { body(c, cs, v) })
 	v.Trace = c.Trace()
+	if c.Prio {
+		v.Class("priority-schedule")
+	}
+	if c.Mix {
+		v.Class("uniform-decisions")
+	}
 	if c.StepLimit {
 		v.Infra = "step limit exceeded"
 	}
